@@ -174,7 +174,7 @@ def check_case(case):
         if k not in fresh_cache:
             code2 = D.make_code(case['code'], case['size'], case.get('code_deformation'))
             em2 = D.make_noise(case['direction'], case.get('noise_deformation'))
-            with D.quiet():
+            with D.quiet(), D.time_limit():
                 d2 = D.make_decoder(case['decoder'], code2, em2, p, case.get('kwargs'))
                 fresh_cache[k] = np.asarray(d2.decode(syns[k].copy())).copy()
         return fresh_cache[k]
@@ -187,13 +187,13 @@ def check_case(case):
         s = syns[k].copy()
         s0 = s.copy()
         try:
-            with D.quiet():
+            with D.quiet(), D.time_limit():
                 c = np.asarray(dec.decode(s))
+            f = fresh(k)
         except Exception as e:  # noqa: BLE001
             return f'decode raised {type(e).__name__} at call {step}: {str(e)[:100]}'
         if s.shape != s0.shape or not np.array_equal(s, s0):
             return f'caller\'s syndrome modified by call {step} (history index {k})'
-        f = fresh(k)
         if randomised:
             if c.shape != (2 * n,) or not np.all((c == 0) | (c == 1)):
                 return f'call {step}: result is not a binary vector of length 2n'
@@ -211,10 +211,13 @@ def check_case(case):
 
 
 def shrink(case):
-    if check_case(case) is None:
-        return case
     h = case['history']
     base = dict(case, mode='sequence')
+    if case.get('decoder') in D.TIMED_OUT:
+        c1 = dict(base, history=h[:1])
+        return c1 if check_case(c1) is not None else case
+    if check_case(case) is None:
+        return case
     for a in range(len(h)):
         for b in range(len(h)):
             c2 = dict(base, history=[h[a], h[b]])
@@ -307,7 +310,8 @@ def n_calls(c):
 
 def oracle(ctx, deep=False, broken=None):
     cases = oracle_cases(ctx, deep)
-    fails = first_failures(cases, check_case,
+    D.TIMED_OUT.clear()
+    fails = first_failures(cases, D.bounded(check_case),
                            key=lambda c: {'decoder': c['decoder'], 'code': c['code'],
                                           'code_deformation': c.get('code_deformation')})
     for f in fails:
